@@ -242,17 +242,11 @@ def run_case(case, g, graph, counters) -> Optional[Dict[str, Any]]:
             return viol("C14", "count_result_shape", f"{len(out)} bindings")
         (key, cand), = out.items()
         m = to_model(cand)
-        if m.label != partial.label:
-            return viol("C14", "count_root_changed", f"{partial.label} -> {m.label}")
-        v = validate_tree(m, g, partial.label, allow_open=True, check_ids=True)
-        if v:
-            return viol("C14", "count_invalid_tree", f"count({tree_repr(partial)}, {needle}, {k}): {v}")
-        got = sum(1 for _, nd in iter_nodes(m) if nd.label == needle)
-        if got != k:
-            return viol("C14", "count_wrong_number", f"count({tree_repr(partial)}, {needle}, {k}) -> {tree_repr(m)} has {got} needles")
-        for p, nd in iter_nodes(m):
-            if nd.children is None and (nd.label == needle or needle in r.get(nd.label, ())):
-                return viol("C14", "count_open_leaf_reaches_needle", f"count({tree_repr(partial)}, {needle}, {k}) -> {tree_repr(m)}: open leaf {nd.label} at {p} can still produce {needle}")
+        from oracles.targets import judge_count
+
+        problem = judge_count(g, partial.label, needle, k, m)
+        if problem:
+            return viol("C14", "count_completion", f"count({tree_repr(partial)}, {needle}, {k}) -> {tree_repr(m)}: {problem}")
         return None
     return None
 
